@@ -200,15 +200,22 @@ func setupDirs(w *simrt.World) {
 func dagPath(spec *DagSpec) string { return path.Join(dagsDir, spec.File+".yaml") }
 
 func seedIDs(tp *simrt.Tape) {
-	// request ids come from the tape so that replays see the same ids
-	uuid.SetRand(tapeReader{tp})
+	// Request ids are a pure function of the run's seed, not of recorded draws: the shrinker
+	// zeroes draws, and two runs with the same "random" id is a situation uuid rules out.
+	uuid.SetRand(&idReader{state: tp.Seed*0x9e3779b97f4a7c15 + 0x1234567})
 }
 
-type tapeReader struct{ tp *simrt.Tape }
+type idReader struct{ state uint64 }
 
-func (r tapeReader) Read(b []byte) (int, error) {
+func (r *idReader) Read(b []byte) (int, error) {
 	for i := range b {
-		b[i] = byte(r.tp.Draw(simrt.SLat, 256))
+		// splitmix64
+		r.state += 0x9e3779b97f4a7c15
+		z := r.state
+		z = (z ^ (z >> 30)) * 0xbf58476d1ce4e5b9
+		z = (z ^ (z >> 27)) * 0x94d049bb133111eb
+		z ^= z >> 31
+		b[i] = byte(z)
 	}
 	return len(b), nil
 }
@@ -610,6 +617,7 @@ type stepCheck struct {
 	cancelSeenAt  time.Duration
 	agentExited   bool
 	statusAtStop  map[string]string
+	racedLaunch   bool
 	mutBefore     map[string]string
 	mutAfter      map[string]string
 }
